@@ -369,6 +369,10 @@ pub fn check(world: &World, sc: &C04) -> Report {
     rep.probe("duplicate_entries", dup.len() as u64);
     rep.probe("duplicate_hits_planned", dup.iter().map(|(_, c)| *c as u64).sum());
     rep.probe("duplicates_with_domain", dup.iter().filter(|(s, _)| s.contains("Some(")).count() as u64);
+    // keys with a free variable are the ones whose hits may rename; `{}` = closed or wild-card keys
+    rep.probe("duplicates_with_free_variable", dup.iter().filter(|(s, _)| !s.ends_with("{}")).count() as u64);
+    rep.probe("duplicates_closed_with_quantifier", dup.iter().filter(|(s, _)| s.ends_with("{}") && s.contains("{var0}")).count() as u64);
+    rep.probe("duplicates_wild_card", dup.iter().filter(|(s, _)| s.starts_with('%')).count() as u64);
     rep.probe("batches_with_restricted_scope", sc.batch.iter().any(|f| !{ let mut p = Default::default(); let mut d = std::collections::BTreeSet::new(); f.wild_labels(&mut p, &mut d); d.is_empty() }) as u64);
     run_variants(&env, &sc.batch, &refs, &sc.variants, &mut rep, ["batch_vs_alone", "permuted_batch_vs_alone", "repeated_batch_vs_alone"], "alone");
     if !dup.is_empty() {
